@@ -128,6 +128,9 @@ pub enum Mutation {
     /// The byte string at this node holds one CBOR item (CBOR-in-CBOR, tag 24):
     /// apply the inner mutation to that item and re-wrap.
     Embedded(usize, Box<Mutation>),
+    /// Several mutations at once, applied in order (typically a whole-item form
+    /// followed by one single-site mutation).
+    Compose(Vec<Mutation>),
 }
 
 impl Mutation {
@@ -159,6 +162,11 @@ impl Mutation {
                 "strip-258" => "embedded:strip-258",
                 _ => "embedded:global",
             },
+            Mutation::Compose(v) => match v.first() {
+                Some(Mutation::AllIndef) => "site-on-all-indef",
+                Some(Mutation::WidenAllInts(_)) => "site-on-wide-ints",
+                _ => "composed",
+            },
         }
     }
     /// The node the mutation is attached to (None for global ones).
@@ -173,6 +181,7 @@ impl Mutation {
             | Mutation::MapReverse(i)
             | Mutation::MapRotate(i)
             | Mutation::Embedded(i, _) => Some(*i),
+            Mutation::Compose(v) => v.last().and_then(|m| m.site()),
             _ => None,
         }
     }
@@ -318,9 +327,9 @@ pub struct Encoded {
     /// stood (for `AddTag258(i)` the span includes the tag, for
     /// `StripTag258(i)` it is the span of the untagged item).
     pub spans: Vec<(usize, usize)>,
-    /// For `Embedded(i, m)`: offset of the embedded item's first byte in
-    /// `bytes`, and the spans of the embedded item's nodes relative to it.
-    pub embedded: Option<(usize, Vec<(usize, usize)>)>,
+    /// For `Embedded(i, m)`: `i`, the offset of the embedded item's first byte
+    /// in `bytes`, and the spans of the embedded item's nodes relative to it.
+    pub embedded: Option<(usize, usize, Vec<(usize, usize)>)>,
 }
 
 impl Encoded {
@@ -330,51 +339,88 @@ impl Encoded {
 }
 
 struct Wr<'m> {
-    m: &'m Mutation,
+    ms: Vec<&'m Mutation>,
     out: Vec<u8>,
     spans: Vec<(usize, usize)>,
     idx: usize,
-    embedded: Option<(usize, Vec<(usize, usize)>)>,
+    embedded: Option<(usize, usize, Vec<(usize, usize)>)>,
 }
 
-fn at_least(v: u64, cur: W, want: W) -> W {
-    let w = cur.max(want);
-    debug_assert!(width_fits(v, w));
-    w
+fn flatten<'m>(m: &'m Mutation, out: &mut Vec<&'m Mutation>) {
+    match m {
+        Mutation::Compose(v) => v.iter().for_each(|x| flatten(x, out)),
+        other => out.push(other),
+    }
 }
 
 impl Wr<'_> {
-    fn int_width(&self, i: usize, v: u64, w: W) -> W {
-        match self.m {
-            Mutation::WidenInt(j, nw) if *j == i => *nw,
-            Mutation::WidenAllInts(nw) => at_least(v, w, *nw),
-            _ => w,
+    fn int_width(&self, i: usize, _v: u64, w: W) -> W {
+        let mut w = w;
+        for m in &self.ms {
+            match m {
+                Mutation::WidenInt(j, nw) if *j == i => w = *nw,
+                Mutation::WidenAllInts(nw) => w = w.max(*nw),
+                _ => {}
+            }
         }
+        w
     }
-    fn len_width(&self, i: usize, v: u64, w: W) -> W {
-        match self.m {
-            Mutation::WidenLen(j, nw) if *j == i => *nw,
-            Mutation::WidenAllLens(nw) => at_least(v, w, *nw),
-            _ => w,
+    fn len_width(&self, i: usize, _v: u64, w: W) -> W {
+        let mut w = w;
+        for m in &self.ms {
+            match m {
+                Mutation::WidenLen(j, nw) if *j == i => w = *nw,
+                Mutation::WidenAllLens(nw) => w = w.max(*nw),
+                _ => {}
+            }
         }
+        w
     }
     /// Form of the container at `i`: Some(width) definite, None indefinite.
     fn form(&self, i: usize, len: u64, w: Option<W>) -> Option<W> {
-        let toggled = match w {
-            Some(_) => None,
-            None => Some(min_width(len)),
-        };
-        match self.m {
-            Mutation::ToggleContainer(j) if *j == i => toggled,
-            Mutation::ToggleAll => toggled,
-            Mutation::AllIndef => None,
-            Mutation::AllDef => Some(min_width(len)),
-            _ => w.map(|w| self.len_width(i, len, w)),
+        let mut f = w;
+        let mut touched = false;
+        for m in &self.ms {
+            let toggled = match f {
+                Some(_) => None,
+                None => Some(min_width(len)),
+            };
+            match m {
+                Mutation::ToggleContainer(j) if *j == i => {
+                    f = toggled;
+                    touched = true
+                }
+                Mutation::ToggleAll => {
+                    f = toggled;
+                    touched = true
+                }
+                Mutation::AllIndef => {
+                    f = None;
+                    touched = true
+                }
+                Mutation::AllDef => {
+                    f = Some(min_width(len));
+                    touched = true
+                }
+                _ => {}
+            }
+        }
+        match (f, touched) {
+            (Some(w), _) => Some(self.len_width(i, len, w)),
+            (None, _) => None,
         }
     }
+    fn has(&self, pred: impl Fn(&Mutation) -> bool) -> bool {
+        self.ms.iter().any(|m| pred(m))
+    }
     fn string(&mut self, i: usize, major: u8, s: &[u8], w: W) {
-        match self.m {
-            Mutation::Rechunk(j, k) if *j == i => {
+        let special = self.ms.iter().copied().find(|m| match m {
+            Mutation::Rechunk(j, _) => *j == i,
+            Mutation::Embedded(j, _) => *j == i && major == 2,
+            _ => false,
+        });
+        match special {
+            Some(Mutation::Rechunk(_, k)) => {
                 self.out.push((major << 5) | 31);
                 let parts: Vec<&[u8]> = if *k >= 2 && s.len() >= 2 {
                     vec![&s[..s.len() / 2], &s[s.len() / 2..]]
@@ -389,13 +435,13 @@ impl Wr<'_> {
                 }
                 self.out.push(0xff);
             }
-            Mutation::Embedded(j, inner_m) if *j == i && major == 2 => {
+            Some(Mutation::Embedded(_, inner_m)) => {
                 let inner = refcbor::parse_one(s).expect("embedded item parsed at enumeration time");
                 let enc = encode(&inner, inner_m);
                 write_head(&mut self.out, 2, enc.bytes.len() as u64, min_width(enc.bytes.len() as u64));
                 let off = self.out.len();
                 self.out.extend_from_slice(&enc.bytes);
-                self.embedded = Some((off, enc.spans));
+                self.embedded = Some((i, off, enc.spans));
             }
             _ => {
                 let w = self.len_width(i, s.len() as u64, w);
@@ -421,7 +467,7 @@ impl Wr<'_> {
             Kind::Text(s, w) => self.string(i, 3, s, *w),
             Kind::BytesIndef(ch) | Kind::TextIndef(ch) => {
                 let major = if matches!(n.kind, Kind::BytesIndef(_)) { 2 } else { 3 };
-                if matches!(self.m, Mutation::Rechunk(j, _) if *j == i) {
+                if self.has(|m| matches!(m, Mutation::Rechunk(j, _) if *j == i)) {
                     let all: Vec<u8> = ch.iter().flat_map(|c| c.0.iter().copied()).collect();
                     write_head(&mut self.out, major, all.len() as u64, min_width(all.len() as u64));
                     self.out.extend_from_slice(&all);
@@ -435,7 +481,7 @@ impl Wr<'_> {
                 }
             }
             Kind::Array(v, w) => {
-                if matches!(self.m, Mutation::AddTag258(j) if *j == i) {
+                if self.has(|m| matches!(m, Mutation::AddTag258(j) if *j == i)) {
                     write_head(&mut self.out, 6, 258, 2);
                 }
                 let form = self.form(i, v.len() as u64, *w);
@@ -460,10 +506,12 @@ impl Wr<'_> {
                 // of each entry's nodes must stay the ORIGINAL one, so the index
                 // counter is positioned per entry.
                 let n_entries = v.len();
-                let order: Option<Vec<usize>> = match self.m {
-                    Mutation::MapReverse(j) if *j == i => Some((0..n_entries).rev().collect()),
-                    Mutation::MapRotate(j) if *j == i => Some((0..n_entries).map(|k| (k + 1) % n_entries).collect()),
-                    _ => None,
+                let order: Option<Vec<usize>> = if self.has(|m| matches!(m, Mutation::MapReverse(j) if *j == i)) {
+                    Some((0..n_entries).rev().collect())
+                } else if self.has(|m| matches!(m, Mutation::MapRotate(j) if *j == i)) {
+                    Some((0..n_entries).map(|k| (k + 1) % n_entries).collect())
+                } else {
+                    None
                 };
                 match order {
                     None => {
@@ -492,7 +540,7 @@ impl Wr<'_> {
                 }
             }
             Kind::Tag(t, w, inner) => {
-                let strip = *t == 258 && matches!(self.m, Mutation::StripTag258(j) if *j == i);
+                let strip = *t == 258 && self.has(|m| matches!(m, Mutation::StripTag258(j) if *j == i));
                 if !strip {
                     let w = self.len_width(i, *t, *w);
                     write_head(&mut self.out, 6, *t, w);
@@ -508,7 +556,9 @@ impl Wr<'_> {
 /// Write `root` under mutation `m`.
 pub fn encode(root: &Node, m: &Mutation) -> Encoded {
     let n = root.count_nodes();
-    let mut w = Wr { m, out: Vec::with_capacity(root.end.saturating_sub(root.start) + 64), spans: vec![(0, 0); n], idx: 0, embedded: None };
+    let mut ms = vec![];
+    flatten(m, &mut ms);
+    let mut w = Wr { ms, out: Vec::with_capacity(root.end.saturating_sub(root.start) + 64), spans: vec![(0, 0); n], idx: 0, embedded: None };
     w.node(root);
     Encoded { bytes: w.out, spans: w.spans, embedded: w.embedded }
 }
